@@ -298,10 +298,11 @@ def _run_case(case):
     sample = None
     for grid in _grids_for(ax, q, tier):
         for damp in DAMPS:
-            if case["variant"] == "constraint_init" and case["init"] == "exact" and damp == 0.0:
-                # exact initial state and no damping: the initial innovation covariance is exactly singular
-                # (pseudo-inverse semantics are covered by the damp > 0 / inexact cases)
-                pass
+            if case["variant"] == "constraint_init" and case["init"] == "exact" and damp == 0.0 and case["calib"] == "mle":
+                # exact initial state, no damping: the initial residual and its variance are both exactly zero, so the first datum of
+                # the quasi-MLE (whitened residual) is 0/0 - undefined, not wrong (a-priori rule; the uncalibrated and dynamic
+                # solvers, whose pseudo-inverse update is well defined there, are still compared)
+                continue
             out = prog(jnp.asarray(C), jnp.asarray(grid), jnp.asarray(tc), jnp.asarray(svec), damp)
             out = {k: np.asarray(v) for k, v in out.items() if k in ("mean", "cov", "output_scale", "num_steps", "t")}
             try:
